@@ -46,9 +46,9 @@ S = "gotranx.schemes."
 contract(
     S + "explicit_euler",
     params={"ode": "ODE", "dt": "Sym", "name": "Name", "printer": "Fn:printer", "remove_unused": "Bool"},
-    ret="Seq[Stmt]",
+    ret="Seq[Stmt]", requires=["WF(ode)"],
     where={"SA": "ode.sorted_assignments(True, remove_unused)"},
-    raises={"GotranxError": "ode_has_none_value(ode)", "CycleError": "ode_cyclic(ode)"},
+    raises={"GotranxError": "maybe", "CycleError": "maybe", "KeyError": "maybe"},
     ensures={"result_is_euler_emit": "result == euler_emit(SA, dt, name, len(SA))"},
     loops={0: {"invariant": {"eqs": "eqs == euler_emit(SA, dt, name, k)", "slot": "i == count_sd(SA, k)"},
                "types": {"eqs": "Seq[Stmt]"}}},
@@ -140,9 +140,9 @@ def hybrid_emit(SA, dt, vname, delta, stiff, j):
 contract(
     S + "generalized_rush_larsen",
     params={"ode": "ODE", "dt": "Sym", "name": "Name", "printer": "Fn:printer", "remove_unused": "Bool", "delta": "Real"},
-    ret="Seq[Stmt]",
+    ret="Seq[Stmt]", requires=["WF(ode)"],
     where={"SA": "ode.sorted_assignments(True, remove_unused)"},
-    raises={"GotranxError": "ode_has_none_value(ode)", "CycleError": "ode_cyclic(ode)"},
+    raises={"GotranxError": "maybe", "CycleError": "maybe", "KeyError": "maybe"},
     ensures={"result_is_grl_emit": "result == grl_emit(SA, dt, name, delta, len(SA))"},
     loops={0: {"invariant": {"eqs": "eqs == grl_emit(SA, dt, name, delta, k)", "slot": "i == count_sd(SA, k)"},
                "types": {"eqs": "Seq[Stmt]"}}},
@@ -155,10 +155,10 @@ contract(
     S + "hybrid_rush_larsen",
     params={"ode": "ODE", "dt": "Sym", "name": "Name", "printer": "Fn:printer", "remove_unused": "Bool", "delta": "Real",
             "stiff_states": "Opt[Seq[Name]]"},
-    ret="Seq[Stmt]",
+    ret="Seq[Stmt]", requires=["WF(ode)"],
     where={"SA": "ode.sorted_assignments(True, remove_unused)",
            "STIFF": "ite(stiff_states is None, empty('Set[Name]'), set(stiff_states))"},
-    raises={"GotranxError": "ode_has_none_value(ode)", "CycleError": "ode_cyclic(ode)"},
+    raises={"GotranxError": "maybe", "CycleError": "maybe", "KeyError": "maybe"},
     ensures={"result_is_hybrid_emit": "result == hybrid_emit(SA, dt, name, delta, STIFF, len(SA))"},
     loops={0: {"invariant": {"eqs": "eqs == hybrid_emit(SA, dt, name, delta, STIFF, k)", "slot": "i == count_sd(SA, k)"},
                "types": {"eqs": "Seq[Stmt]", "found_stiff_states_set": "Set[Name]"}}},
